@@ -167,7 +167,7 @@ def oracle_batch_histories(ck, rng):
         b = BatchLoader(order=1, output_shape=(5, 5, 5), corner_safe=cs)
         truth = []          # (tomogram, positions) still in the batch, tagged with a unique marker per addition
         hist = []
-        nadd = int(rng.integers(2, 5))
+        nadd = int(rng.integers(2, 5)) if it >= 2 else 3
         for a_ in range(nadd):
             tomo = rng.normal(size=(15, 15, 15)).astype(np.float32) + 5.0 * (a_ + 1)
             nm = int(rng.integers(1, 4))
@@ -175,15 +175,16 @@ def oracle_batch_histories(ck, rng):
             mark = 100 * it + a_
             rot = Rotation.random(nm, random_state=int(rng.integers(0, 2**31)))
             mol = Molecules(pos, rot, features={"mark": [mark] * nm})
-            explicit = [None, None, int(rng.integers(0, 6))][int(rng.integers(0, 3))] if it % 2 else None
+            explicit = [None, None, int(rng.integers(0, 6))][int(rng.integers(0, 3))] if (it % 2 and it >= 2) else None
             if explicit is not None and explicit in b.images:
                 explicit = None
             b.add_tomogram(tomo, mol, image_id=explicit)
             hist.append(["add_tomogram", nm, explicit])
             truth.append((tomo, pos, mark, rot))
-            if a_ >= 1 and rng.random() < 0.6:
+            directed = it < 2           # the first histories are scripted: add, add, drop the first, add (automatic ids throughout)
+            if (directed and a_ == 1) or (not directed and a_ >= 1 and rng.random() < 0.6):
                 # drop every molecule of one earlier addition (its tomogram leaves the batch)
-                drop = truth[int(rng.integers(0, len(truth) - 1))][2]
+                drop = truth[0 if directed else int(rng.integers(0, len(truth) - 1))][2]
                 b = b.filter(pl.col("mark") != drop)
                 truth = [t_ for t_ in truth if t_[2] != drop]
                 hist.append(["filter-out", drop])
